@@ -59,6 +59,10 @@ type shardFile struct {
 
 func verifDir() string { return env("VERIF_DIR", "/verif") }
 
+// replayDir: where violation witnesses are written (runs against deliberately broken trees use a
+// scratch directory so that they do not mix with witnesses from the unchanged tree).
+func replayDir() string { return env("VERIF_REPLAY_DIR", filepath.Join(verifDir(), "replays")) }
+
 func parent() int {
 	id := os.Getenv("VERIF_PROP")
 	tier := env("VERIF_TIER", "quick")
@@ -180,7 +184,7 @@ func parent() int {
 		keys = append(keys, k)
 	}
 	sort.Strings(keys)
-	os.MkdirAll(filepath.Join(verifDir(), "replays"), 0o755)
+	os.MkdirAll(replayDir(), 0o755)
 	violations := 0
 	knownSeen := 0
 	for _, k := range keys {
@@ -247,9 +251,10 @@ func parent() int {
 		"violations":  violations,
 		"known_findings_reproduced": knownSeen,
 	}
-	os.MkdirAll(filepath.Join(verifDir(), "evidence"), 0o755)
+	evDir := env("VERIF_EVIDENCE_DIR", filepath.Join(verifDir(), "evidence"))
+	os.MkdirAll(evDir, 0o755)
 	b, _ := json.MarshalIndent(ev, "", " ")
-	if err := os.WriteFile(filepath.Join(verifDir(), "evidence", id+".json"), b, 0o644); err != nil {
+	if err := os.WriteFile(filepath.Join(evDir, id+".json"), b, 0o644); err != nil {
 		fmt.Fprintf(os.Stderr, "HARNESS-ERROR writing evidence: %v\n", err)
 		return 2
 	}
@@ -283,7 +288,7 @@ func tail(s string, n int) string {
 func writeReplay(id, tier string, f *h.Found) string {
 	sum := sha1.Sum([]byte(f.Sig))
 	name := fmt.Sprintf("%s-%s.json", id, hex.EncodeToString(sum[:4]))
-	path := filepath.Join(verifDir(), "replays", name)
+	path := filepath.Join(replayDir(), name)
 	b, _ := json.MarshalIndent(map[string]any{"property": f.Prop, "tier": tier, "signature": f.Sig, "message": f.Msg, "scenario": f.Scenario,
 		"choices": f.Choices, "deviations": f.Devs, "case": f.Case, "trace": f.Trace}, "", " ")
 	os.WriteFile(path, b, 0o644)
